@@ -158,7 +158,7 @@ pub fn observe_real(store: &Store, model: &Model, opts: &ObsOpts, n_extra: u8) -
                             last = Some(e.at);
                         }
                     }
-                    let mut s: Vec<String> = ids.iter().map(|i| hex(&i[..6])).collect();
+                    let mut s: Vec<String> = ids.iter().map(|i| hex(&i[..])).collect();
                     let n = s.len();
                     s.sort();
                     s.dedup();
@@ -252,7 +252,7 @@ pub fn observe_model(model: &Model, enc: &dyn Fn(&B32) -> Option<Vec<u8>>, opts:
     if opts.battery {
         for (label, q) in battery(model) {
             let ex = model.query_expect(&q);
-            let mut s: Vec<String> = ex.matching.iter().map(|(_, i)| hex(&i[..6])).collect();
+            let mut s: Vec<String> = ex.matching.iter().map(|(_, i)| hex(&i[..])).collect();
             s.sort();
             let _ = o.insert(format!("bat/{label}"), s.join(","));
         }
